@@ -34,7 +34,9 @@ TECHNIQUE = "Lean 4 proof over a labelled transition system + lock-step trace co
 OBLIGATIONS = [
     "Grog.C10.mutex",
     "Grog.C10.stale_never_blocks",
-    "Grog.C10.stale_never_blocks_all_dead",
+    "Grog.C10.stale_never_blocks_others_gone",
+    "Grog.C10.contender_never_stuck",
+    "Grog.C10.flock_winner_acquires",
     "Grog.C10.waiter_proceeds",
     "Grog.C10.clean_without_lock_witness",
     "Grog.C10.mutex_witness_empty",
